@@ -30,7 +30,9 @@ IP_ORIGINS = [("http", "[::1]", 8080), ("http", "[::1]", None), ("https", "[::1]
 EXTS = [None, {"sni_hostname": "sni.example"}, {"target": b"/t/alt?y=2"}]
 BODIES = [None, b"caller-body"]
 CONNECT_REPLIES = [("interim+200", 200, True), ("200", 200, False), ("204", 204, False), ("299", 299, False), ("300", 300, False),
-                   ("302", 302, False), ("403", 403, False), ("407", 407, False), ("500", 500, False), ("502", 502, False)]
+                   ("302", 302, False), ("403", 403, False), ("407", 407, False), ("500", 500, False), ("502", 502, False),
+                   ("403-latin1", 403, False), ("407-bytes", 407, False)]
+REASONS = {"403-latin1": b"Acc\xe8s refus\xe9", "407-bytes": b"\xff\xfe auth"}     # obs-text is legal in a reason phrase
 SOCKS_METHOD = [b"\x05\x00", b"\x05\x02", b"\x05\xff", b"\x05\x01"]
 SOCKS_AUTH = [b"\x01\x00", b"\x01\x01"]
 SOCKS_REPLY = [bytes([5, c, 0, 1, 127, 0, 0, 1, 4, 56]) for c in (0, 1, 2, 3, 4, 5, 6, 7, 8)] + \
@@ -97,7 +99,7 @@ def run_case(case, variant):
         kw = {}
         if reply is not None:
             rep = next(r for r in CONNECT_REPLIES if r[0] == reply)
-            kw = dict(connect_status=rep[1], interim=rep[2], reason=b"Proxy Says")
+            kw = dict(connect_status=rep[1], interim=rep[2], reason=REASONS.get(rep[0], b"Proxy Says"))
         proxy = HTTPProxy(inner, forward_server=H1Server(make_echo_responder("cl"), name="fwd"), **kw)
         purl = f"{kind}://{scen.PROXY_HOST}:{scen.PROXY_PORT}"
     else:
